@@ -745,10 +745,18 @@ def _scope_names(tr):
         simple_index.setdefault(q.split("::")[-1], []).append(q)
 
     def base_qs(d):
+        # a word of a base specifier names a class of that simple name only if C++ lookup from `d` can find it there: a top-level
+        # class, a class nested in a scope that encloses `d`, or a nested class whose enclosing class is spelled in the same base
+        # specifier (`publisher<T>::queue`).  (Matching by simple name alone made `limited_queue : queue<...>` a class derived from
+        # `publisher::queue`, so renaming `publisher::queue::_mx` was refused as a capture of `queue::_mx` - benign/r2-e2.)
         out = []
         for b in d.bases:
-            for w in re.findall(r"[A-Za-z_]\w*", b):
-                out += simple_index.get(w, [])
+            words = re.findall(r"[A-Za-z_]\w*", b)
+            for w in words:
+                for cq in simple_index.get(w, []):
+                    par = cq.rsplit("::", 1)[0] if "::" in cq else ""
+                    if par == "" or d.q == par or d.q.startswith(par + "::") or par.split("::")[-1] in words:
+                        out.append(cq)
         return out
 
     cache = {}
